@@ -33,15 +33,19 @@ def run(ctx):
     for q in ("linalg_utils.qr_vmap", "linalg_utils.qr_vmap_uhf"):
         n += qr.pair3(ctx, p.func(q))
     # orthonormalize_walkers in every propagator class that defines it
+    from ..rules import guard as G
+    done = set()
     for cq in p.subclasses("propagation.propagator"):
-        ci = p.classes[cq]
         for mname in ("orthonormalize_walkers", "_orthogonalize_walkers"):
-            fi = ci.methods.get(mname)
-            if fi is None or fi.is_abstract:
+            # resolved through the MRO and evaluated for this class, helpers of the class inlined: an inherited
+            # orthonormalize_walkers that delegates to the class's own _orthogonalize_walkers is judged as a whole
+            fi = p.lookup_method(cq, mname)
+            if fi is None or fi.is_abstract or fi.is_refusal():
                 continue
-            ev = Evaluator(p)
-            fr = ev.eval_function(fi)
-            R = ev.result(fr)
+            run_ = G.StepRun(p, fi, cq)
+            R = run_.result
+            if R is None:
+                continue
             pd = R.args[0] if R.op == "tuple" else R
             W = strip_wrappers(getitem(pd, const("walkers")))
             ok, why = False, ""
@@ -56,12 +60,16 @@ def run(ctx):
             else:
                 why = (f"walkers slot receives {show(W, maxdepth=2)[:80]} (the (Q, norms) tuple or "
                        f"another value), not element 0 of qr_vmap")
-            ctx.ob("PAIR-3", f"{fi.qualname}: stores the Q factor of the stored walkers", ok, why, fi)
+            tag = f"{cq.split('.')[-1]}.{mname}"
+            if (tag, ok, why) in done:
+                continue
+            done.add((tag, ok, why))
+            ctx.ob("PAIR-3", f"{tag}: stores the Q factor of the stored walkers", ok, why, fi)
             if R.op == "tuple" and len(R.args) == 2:
                 nf = strip_wrappers(R.args[1])
                 okn = nf.op == "getitem" and is_const(nf.args[1], 1) and W.op == "getitem" and \
                     nf.args[0] is W.args[0]
-                ctx.ob("PAIR-3", f"{fi.qualname}: returns the norm factors of the same QR", okn,
+                ctx.ob("PAIR-3", f"{tag}: returns the norm factors of the same QR", okn,
                        "norms = qr(walkers)[1]" if okn else "norm factors come from a different call", fi)
             # container kind: the uhf variant for list walkers
             callee = func_name(W.args[0]) if (W.op == "getitem" and W.args[0].op == "call") else ""
@@ -70,7 +78,7 @@ def run(ctx):
                 pair_cls = any(isinstance(nd, ast.Subscript) and isinstance(nd.value, ast.Name)
                                and nd.value.id == "walkers" and isinstance(nd.slice, ast.Constant)
                                and nd.slice.value in (0, 1) for nd in ast.walk(trot.node))
-                ctx.ob("PAIR-3", f"{fi.qualname}: QR variant matches the walker container",
+                ctx.ob("PAIR-3", f"{tag}: QR variant matches the walker container",
                        pair_cls == callee.endswith("_uhf"),
                        f"{callee} for {'[up, dn]' if pair_cls else 'single-array'} walkers", fi)
             n += 1
@@ -101,18 +109,22 @@ def init_walkers(ctx):
     ctx.ob("PATH-1", f"{fi.qualname}: no path falls off the end", not fr.fell_off_end,
            "every path returns or raises" if not fr.fell_off_end else
            "a path reaches the end of the function and returns None", fi)
-    leaves = len(fr.returns) + len(fr.raises)
-    ctx.ob("PATH-1", f"{fi.qualname}: leaves enumerated", leaves >= 3, f"{len(fr.returns)} returns, "
-           f"{len(fr.raises)} raises", fi, nontrivial=False)
+    all_leaves = ev.leaves(fr)
+    ret_leaves = [(pth, t_, ln) for pth, kind, t_, ln in all_leaves if kind == "return"]
+    raise_leaves = [(pth, t_, ln) for pth, kind, t_, ln in all_leaves if kind == "raise"]
+    ctx.ob("PATH-1", f"{fi.qualname}: leaves enumerated", len(all_leaves) >= 3, f"{len(ret_leaves)} returns, "
+           f"{len(raise_leaves)} raises", fi, nontrivial=False)
 
     def polarity(path, cond_pred):
         for c, pol in path:
             if cond_pred(c):
                 return pol
+            if c.op == "unop" and c.args[0] == "not" and cond_pred(c.args[1]):
+                return not pol
         return None
 
     is_restricted = lambda c: c is restricted
-    for k, (path, term, line) in enumerate(fr.returns):
+    for k, (path, term, line) in enumerate(ret_leaves):
         pol = polarity(path, is_restricted)
         t = strip_wrappers(term)
         if pol is True:
@@ -197,7 +209,7 @@ def init_walkers(ctx):
                 ctx.rep.ob("GUARD-1", f"{fi.qualname}: return #{k}: the accepted overlap covers both spin sectors of the trial",
                            need <= seen, f"determinants against the natural orbitals of spin(s) {sorted(seen)}; "
                            f"needed {sorted(need)}", p.modules[fi.module].path, line)
-    for k, (path, term, line) in enumerate(fr.raises):
+    for k, (path, term, line) in enumerate(raise_leaves):
         t = strip_wrappers(term)
         is_ve = t.op == "call" and func_name(t) == "builtins.ValueError"
         rejected = [c for c, pol_ in path if (cm := m_cmp(c)) is not None and cm[0] in (">", ">=")
@@ -205,6 +217,6 @@ def init_walkers(ctx):
         ctx.rep.ob("PATH-1", f"{fi.qualname}: failure #{k} is an explicit ValueError after every test failed",
                    is_ve and len(rejected) >= 2, f"raise {show(t, maxdepth=1)[:60]} after "
                    f"{len(rejected)} failed acceptance tests", p.modules[fi.module].path, line)
-    if not fr.raises:
+    if not raise_leaves:
         ctx.ob("PATH-1", f"{fi.qualname}: generator refuses explicitly when no good orbitals exist", False,
                "no raise statement left: the failing branch returns walkers with vanishing overlap or None", fi)
